@@ -255,6 +255,9 @@ Module Oracle.
     | _ => []
     end.
 
+  (* slice [a, b) of a stream defined once per family of scenarios *)
+  Definition sl (s : bytes) (a b : Z) : bytes := firstn (Z.to_nat (b - a)) (skipn (Z.to_nat a) s).
+
   Fixpoint list_eqb (a b : bytes) : bool :=
     match a, b with
     | [], [] => true
